@@ -14,6 +14,8 @@ struct Node : public MockN2k {
   unsigned char src(int i) { return Devices[i].N2kSource; }
 };
 static std::set<unsigned> ownedBefore;   // addresses of our devices before the current op
+static uint64_t claimUntil[16];          // C04 monitor: a device that changed its address (or just opened) is inside its claim window for 250 ms
+static unsigned char addrOf[16];
 static Node *N = nullptr; static tN2kDeviceList *DL = nullptr;
 static int nDev = 1, mode = 2;
 static long delivered = 0; static std::string caseDesc; static bool caseTP = false, caseMoved = false;
@@ -51,11 +53,12 @@ static void exec(const std::string &line) {
     if (dl) DL = new tN2kDeviceList(N);
     openAndSettle(*N, 700);
     N->sent.clear(); addr0 = N->src(0);
+    for (int i = 0; i < nDev; i++) { claimUntil[i] = 0; addrOf[i] = N->src(i); }
     C.out("ok"); return;
   }
   if (!N) { C.out("bad-op"); return; }
   ownedBefore.clear(); for (int i = 0; i < nDev; i++) ownedBefore.insert(N->src(i));
-  if (w[0] == "acc") { N->acceptDefault = w[1] == "1"; C.out("ok"); alarm(0); return; }
+  if (w[0] == "acc") { N->acceptDefault = w[1] == "1"; if (w[1] == "1") N->refused = 0; C.out("ok"); alarm(0); return; }
   if (w[0] == "t") { g_now += strtoull(w[1].c_str(), 0, 10); N->ParseMessages(); C.out("ok"); }
   else if (w[0] == "poll") { N->ParseMessages(); C.out("ok"); }
   else if (w[0] == "rx") {
@@ -69,6 +72,21 @@ static void exec(const std::string &line) {
     N->SendMsg(m, d); C.out("ok");
   }
   else C.out("bad-op");
+  // C04 monitor (model independent; knows only the mode, the addresses it reads back and its own clock):
+  //  - listen-only nodes put nothing on the bus; a device at the null address sends nothing but address claims;
+  //  - a device that has just changed its address sends nothing but address claims for the next 250 ms.
+  // Frames that were queued under back-pressure are outside the gate, so the monitor pauses while the queue is not empty.
+  for (int i = 0; i < nDev; i++) if (N->src(i) != addrOf[i]) { addrOf[i] = N->src(i); claimUntil[i] = g_now + 250; }
+  bool quiet = N->acceptDefault && N->qRead() == N->qWrite() && N->refused == 0;
+  if (mode == 0 && !N->sent.empty()) C.fail("C04:listen-only-sends", "%zu frame(s), first %s", N->sent.size(), frameStr(N->sent[0]).c_str());
+  if (quiet) for (auto &f : N->sent) {
+    unsigned sa = (unsigned)(f.id & 0xff); bool isClaim = ((f.id >> 8) & 0x1ff00) == 60928UL;
+    if (isClaim) continue;
+    if (sa == 254) { C.fail("C04:null-address-sends", "%s", frameStr(f).c_str()); break; }
+    for (int i = 0; i < nDev; i++) if (N->src(i) == sa && g_now + 1 < claimUntil[i]) {
+      // another device of the node may legitimately hold the same address only by a defect; attribute to the claiming one
+      C.fail("C04:frame-in-claim-window", "device %d changed to address %u %llu ms ago and sent %s", i, sa, (unsigned long long)(g_now + 250 - claimUntil[i]), frameStr(f).c_str()); break; }
+  }
   // every frame the node puts on the bus carries an address one of its devices held before or after this op (or the null address)
   for (auto &f : N->sent) {
     unsigned sa = (unsigned)(f.id & 0xff); bool ok = sa == 254 || ownedBefore.count(sa);
@@ -149,6 +167,22 @@ static void groupFunction() {
   if (R->chance(1, 5) && pl.size() > 2) pl.resize(R->range(1, (int)pl.size()));      // truncated
   fastPacket(126208UL, 3, peer(), ourAddr(), pl, R->chance(1, 15) ? (int)R->below(256) : -1);
 }
+// group-function Command for PGN 126998 carrying installation descriptions as UCS-2 var-strings whose UTF-8 form ends
+// near the handler's 71-byte buffer (mixes of 1-, 2- and 3-byte characters)
+static void gfConfCommand() {
+  std::vector<unsigned char> pl = {1, (unsigned char)(126998UL & 0xff), (unsigned char)((126998UL >> 8) & 0xff), (unsigned char)(126998UL >> 16), (unsigned char)(R->chance(1, 2) ? 0xF8 : 0xF9)};
+  int pairs = (int)R->range(1, 2); pl.push_back((unsigned char)pairs);
+  for (int q = 0; q < pairs; q++) {
+    pl.push_back((unsigned char)(R->chance(1, 8) ? R->below(5) : q + 1));
+    int target = (int)R->range(60, 78), utf8 = 0; std::vector<unsigned> cs;
+    while (utf8 < target && cs.size() < 100) { unsigned k = (unsigned)R->below(10); unsigned c = k < 3 ? (unsigned)R->range(0x20, 0x7e) : (k < 5 ? (unsigned)R->range(0x80, 0x7ff) : (unsigned)R->range(0x800, 0xffff)); cs.push_back(c); utf8 += c < 0x80 ? 1 : c < 0x800 ? 2 : 3; }
+    bool ucs = R->chance(5, 6);
+    if (ucs) { pl.push_back((unsigned char)(2 + 2 * cs.size())); pl.push_back(0); for (unsigned c : cs) { pl.push_back((unsigned char)c); pl.push_back((unsigned char)(c >> 8)); } }
+    else { pl.push_back((unsigned char)(2 + cs.size())); pl.push_back(1); for (unsigned c : cs) pl.push_back((unsigned char)(c & 0x7f ? c & 0x7f : 'x')); }
+  }
+  if (pl.size() > 223) pl.resize(223);
+  fastPacket(126208UL, 3, peer(), N->src((int)R->below(nDev)), pl);
+}
 static void deviceInfoTraffic() {
   unsigned src = R->chance(2, 3) ? pool[R->below(4)] : (R->chance(1, 2) ? peer() : (unsigned)R->below(254));
   unsigned k = (unsigned)R->below(5);
@@ -199,7 +233,8 @@ static void oneCase() {
     }
     if (k < 18) tpSession(R->chance(3, 4));
     else if (k < 26) tpControl();
-    else if (k < 42) groupFunction();
+    else if (k < 38) groupFunction();
+    else if (k < 42) gfConfCommand();
     else if (k < 52) deviceInfoTraffic();
     else if (k < 60) deviceListScenario();
     else if (k < 74) isoStuff();
